@@ -78,26 +78,39 @@ def run(ctx: Ctx):
     ctx.extra["box_parameter"] = box
     ctx.extra["inverse_flag"] = flag
     from ..util import persistent_state
-    persistent_state(ctx, "R19.2", [f_ for f_ in (ctx.repo.func(q_, required=False) for q_ in ('Residue.distance_to',)) if f_ is not None], "the periodic distance")
+    ctx.attempt("R19.2", lambda: persistent_state(ctx, "R19.2", [f_ for f_ in (ctx.repo.func(q_, required=False) for q_ in ('Residue.distance_to',)) if f_ is not None], "the periodic distance"))
 
     # the vector that is wrapped is the separation between the other point and this residue's centre
     other = [p_ for p_ in params if p_ not in (f.self_name, box, flag)][0]
     seps = [s_ for s_ in ast.walk(fn) if isinstance(s_, ast.Assign) and isinstance(s_.value, ast.BinOp)
             and "geometric_center" in norm(s_.value) and isinstance(s_.targets[0], ast.Name)]
+    # names the other point goes by: the parameter, or a local every binding of which is the parameter / such a name /
+    # the geometric centre of such a name
+    others = {other}
+    for _ in range(3):
+        for nm_ in {s_.targets[0].id for s_ in ast.walk(fn) if isinstance(s_, ast.Assign) and len(s_.targets) == 1 and isinstance(s_.targets[0], ast.Name)}:
+            defs_ = [s_.value for s_ in ast.walk(fn) if isinstance(s_, ast.Assign) and len(s_.targets) == 1 and norm(s_.targets[0]) == nm_]
+            if nm_ not in params and defs_ and all(norm(d_) in others or (isinstance(d_, ast.Attribute) and d_.attr == "geometric_center" and norm(d_.value) in others | {nm_})
+                                                    for d_ in defs_):
+                others.add(nm_)
     ok_sep = False
     if seps:
         v_ = seps[0].value
         sides = {norm(v_.left), norm(v_.right)}
         ok_sep = isinstance(v_.op, ast.Sub) and "self.geometric_center" in sides and \
-            (other in sides or "%s.geometric_center" % other in sides)
-    ctx.ob("R19.1", f, seps[0] if seps else "separation", ok_sep,
+            any(o_ in sides or "%s.geometric_center" % o_ in sides for o_ in others)
+    ctx.attempt("R19.1", lambda: ctx.ob("R19.1", f, seps[0] if seps else "separation", ok_sep,
            "the vector that is wrapped and measured is the difference between the other point (or residue centre) and "
-           "this residue's geometric centre", node=seps[0] if seps else fn)
-    conv = [s_ for s_ in ast.walk(fn) if isinstance(s_, ast.If) and "isinstance(%s, Residue)" % other in norm(s_.test)]
+           "this residue's geometric centre", node=seps[0] if seps else fn))
+
+
+    conv = [s_ for s_ in ast.walk(fn) if isinstance(s_, ast.If) and any("isinstance(%s, Residue)" % o_ in norm(s_.test) for o_ in others)]
     ok_conv = bool(conv) and not isinstance(conv[0].test, ast.UnaryOp) and any(
-        isinstance(x, ast.Assign) and norm(x.targets[0]) == other and norm(x.value) == "%s.geometric_center" % other for x in conv[0].body)
-    ctx.ob("R19.1", f, conv[0] if conv else "residue argument", ok_conv,
-           "a residue argument is replaced by its geometric centre (a point argument is used as is)", node=conv[0] if conv else fn)
+        isinstance(x, ast.Assign) and norm(x.targets[0]) in others and isinstance(x.value, ast.Attribute) and x.value.attr == "geometric_center"
+        and norm(x.value.value) in others and "isinstance(%s, Residue)" % norm(x.value.value) in norm(conv[0].test) for x in conv[0].body)
+    ctx.attempt("R19.1", lambda: ctx.ob("R19.1", f, conv[0] if conv else "residue argument", ok_conv,
+           "a residue argument is replaced by its geometric centre (a point argument is used as is)", node=conv[0] if conv else fn))
+
     paths = enum_paths(fn.body)
     n_box_paths = 0
     evaluated = []
@@ -130,6 +143,12 @@ def run(ctx: Ctx):
             label = "path[box given, %s=%s]" % (flag or "inv", fv)
             evaluated.append({"path": label, "trace": p.describe()[:300], "returned": repr(ret),
                               "wraps": [repr(w) for w in wraps], "errors": errs})
+            unk_ = env.get("<unknown>") or []
+            if not errs and (unk_ or (ret is not None and ret.kind == "vec" and ret.info == "unknown")):
+                ctx.ob("R19.1", f, "%s: %s" % (label, _ops_text(p)), True,
+                       "a product on this path involves a value this rule has no model for (%s); the minimum-image arithmetic is "
+                       "not decided on this tree" % (unk_[0] if unk_ else "?")[:80], undecided=True, node=p.end_node or fn)
+                continue
             ok = (not errs) and ret is not None and ret.kind == "vec" and ret.info == "cart" \
                 and ret.wrapped and len(wraps) >= 1
             why = "; ".join(errs) if errs else (
@@ -197,10 +216,18 @@ def _interp(p, box, power):
         env[box] = V("mat", power)
     errs: List[str] = []
     wraps: List[V] = []
+    unknown: List[str] = []
 
     def ev(e) -> V:
         if isinstance(e, ast.Name):
             return env.get(e.id, V("other"))
+        if isinstance(e, (ast.List, ast.Tuple)):
+            r = V("seq", [ev(x) for x in e.elts])
+            return r
+        if isinstance(e, ast.Subscript) and isinstance(e.slice, ast.Constant) and isinstance(e.slice.value, int):
+            v = ev(e.value)
+            if v.kind == "seq" and -len(v.info) <= e.slice.value < len(v.info):
+                return v.info[e.slice.value]
         if isinstance(e, ast.Attribute) and e.attr == "T":
             v = ev(e.value)
             if v.kind == "mat":
@@ -294,6 +321,11 @@ def _interp(p, box, power):
                 return V("vec", "cart", v.wrapped)
             errs.append("%s applies %r to a %s vector" % (txt, b, v.info))
             return V("vec", "bad", v.wrapped, why="%r applied to %s" % (b, v.info))
+        if a.kind in ("vec", "other") and b.kind == "other" and ("dot" in txt or "@" in txt or "matmul" in txt):
+            # a product with something this interpretation has no value for (a matrix reached through a container, a
+            # helper ...): the frame of the result is unknown, which is not the same as wrong
+            unknown.append(txt)
+            return V("vec", "unknown", as_vec(a).wrapped)
         return V("other")
 
     def sub(a: V, b: V, txt: str) -> V:
@@ -302,6 +334,10 @@ def _interp(p, box, power):
             inner = as_vec(b.info) if isinstance(b.info, V) else V("vec", "cart")
             if b.why:
                 errs.append("%s: %s" % (txt, b.why))
+            if v.kind == "vec" and "unknown" in (v.info, inner.info):
+                r = V("vec", "unknown", True)
+                wraps.append(r)
+                return r
             if v.kind == "vec":
                 if v.info != "frac" or inner.info != "frac":
                     errs.append("%s wraps a %s vector (the wrap must act on fractional coordinates)"
@@ -335,6 +371,7 @@ def _interp(p, box, power):
             env["<return>"] = ev(st.value)
             if env["<return>"].kind == "other":
                 env["<return>"] = V("vec", "cart")
+    env["<unknown>"] = unknown
     return env, errs, wraps
 
 
